@@ -551,14 +551,26 @@ def run(tier="quick", root="/repo", evidence_dir=None, quiet=False):
         "other operation is compared exactly",
     ])
     repo = get_repo(root)
-    for rule in (rule_r1, rule_r2, rule_r3, rule_r4, rule_r5):
+    # R7 / R8 first: the weights are the normalised cell functions (switch and alpha uninterpreted); own atom per segment.
+    # They decide, by evaluation, the clauses that the structural rules R1 (routes agree), R2 (chunk table) and R4 (segment
+    # pairing) argue for from the shape of the code; what those report is kept as a note when the evaluation has decided.
+    from gridlint import becke_unity
+
+    def decided(rule):
+        nv, nf = len(rep.violations), len(rep.failed_floors)
         rep.attempt(rule, rep, repo)
+        return len(rep.violations) == nv and len(rep.failed_floors) == nf
+    r7 = decided(becke_unity.rule_unity)
+    r8 = decided(becke_unity.rule_call)
+    why7 = "the evaluation rule R7 decided that both routes compute P_a / sum_b P_b"
+    why8 = "the evaluation rule R8 decided that every point receives the weight of its own atom on the chunked and the sector routes"
+    rep.backed(rule_r1, r7, why7, rep, repo, only=("R1.",))
+    rep.backed(rule_r2, r8, why8, rep, repo, only=("R2.",))
+    rep.attempt(rule_r3, rep, repo)
+    rep.backed(rule_r4, r8, why8, rep, repo, only=("R4.",))
+    rep.attempt(rule_r5, rep, repo)
     # R6: per-atom quantities (radii, pro-atoms, segments) are addressed in the index space of the atoms
     from gridlint import e9
     rep.attempt(e9.rule_index_spaces, rep, repo, ("becke", "hirshfeld"), "R6.index-space", 2)
-    # R7 / R8: the weights are the normalised cell functions (switch and alpha uninterpreted); own atom per segment
-    from gridlint import becke_unity
-    rep.attempt(becke_unity.rule_unity, rep, repo)
-    rep.attempt(becke_unity.rule_call, rep, repo)
     rep.extra["source_digest"] = repo.digest(["becke", "hirshfeld"])
     return rep.finish(evidence_dir=evidence_dir, quiet=quiet)
